@@ -48,6 +48,17 @@ pub fn files(tier: Tier, seed: u64) -> Vec<CutFile> {
         raw.push((name, bytes, None));
     }
     raw.push(("mux:avc+aac (ftyp,mdat,moov)".into(), muxed_baseline(seed, &[Kind::Avc, Kind::Aac]), None));
+    {
+        // long tables: 600 samples, one chunk each (sample duration = one second), varying sizes, rendering offsets and
+        // sync flags, so that stts/ctts/stss/stsc/stsz/stco all have hundreds of entries and the chunk-offset table
+        // is the last thing in the file; every cut position is explored
+        let movie = MovieSpec::new(1000, vec![TrackSpec::new(Kind::Avc, 1000)]);
+        let h: Vec<Op> = (0..600u32).map(|i| Op { track: 1, size: 1 + (i % 7), dur: 1000 + (i % 3), off: (i % 5) as i32 - 2, sync: i % 2 == 0 }).collect();
+        match mux(seed, &movie, &h) {
+            Ok(o) => raw.push(("mux:avc, 600 one-sample chunks (long tables, stco last)".into(), o.bytes, None)),
+            Err(e) => machinery_failure(&format!("long-table baseline mux failed: {}", e)),
+        }
+    }
     raw.push(("canned:minimal.mp4 (ftyp,moov,free,mdat)".into(), canned("minimal.mp4"), None));
     let mut frag = canned("minimal_init.mp4");
     frag.extend(canned("minimal_fragment.m4s"));
